@@ -57,6 +57,7 @@ type Run struct {
 	Extra       map[string]interface{}
 	CheckerCmd  string
 	curConfig   string
+	Verbose     bool
 }
 
 func NewRun(property, tier string, seed int64, verifDir string) *Run {
@@ -266,6 +267,11 @@ func (r *Run) Finish() int {
 		}
 	}
 
+	if r.Verbose {
+		for _, o := range r.Obls {
+			fmt.Printf("  [%s] %-9s %s  %s  %s %s\n", o.Rule, o.Status, o.Key, o.Pos, o.What, o.Detail)
+		}
+	}
 	for _, o := range knownHit {
 		fmt.Printf("KNOWN-FINDING: property=%s %s [%s] %s\n", r.Property, knownKeys[o.Key], o.Key, o.Pos)
 	}
